@@ -232,13 +232,100 @@ def run(tier, seed, replay=None):
             if all(prt.start(dd) <= tp[dd] < prt.end(dd) for dd in range(len(tp))):
                 hits += 1
                 val = np.asarray(prt.evaluate(*tp))
-                if not np.allclose(val, ref, rtol=1e-9, atol=1e-9 * max(1, np.abs(ref).max())):
+                if val.shape != ref.shape or not np.allclose(val, ref, rtol=1e-9, atol=1e-9 * max(1, np.abs(ref).max())):
                     V.failure({'what': 'a subdivide piece does not reproduce the original map', 'obj': O.spec_json(spec), 'op': 'subdivide', 'n': n, 'params': tp})
         if hits != 1:
             V.failure({'what': 'subdivide pieces do not tile the domain (parameter covered by %d pieces)' % hits, 'obj': O.spec_json(spec), 'op': 'subdivide', 'n': n, 'params': tp})
+    # ---------------------------------------------------------------- Curve.append of two independent curves
+    # (different orders / rationality / knot vectors; the second is moved and its weights rescaled so that its first
+    # homogeneous control point is the last one of the first curve, which is what append assumes)
+    napp = 0
+    if not replay:
+        app_cases, lines = [], []
+        for _ in range(40 if tier == 'quick' else 600):
+            dim = rng.choice([2, 3])
+            sa = O.gen_obj(rng, pardim=1, kinds=['open'], dim=dim, pmax=4, nint_max=3)
+            sb = O.gen_obj(rng, pardim=1, kinds=['open'], dim=dim, pmax=4, nint_max=3)
+            if sa['bases'][0]['order'] < 2 or sb['bases'][0]['order'] < 2:
+                continue
+            # raise_order inside append needs continuous operands (C05 finding on jump knots)
+            if any(max([b['knots'].count(k) for k in b['knots'][b['order']:-b['order']]] or [0]) >= b['order'] for b in (sa['bases'][0], sb['bases'][0])):
+                continue
+            la, fb = sa['cps'][-1], sb['cps'][0]
+            wa = la[-1] if sa['rational'] else Fr(1)
+            wb = fb[-1] if sb['rational'] else Fr(1)
+            Pa = [x / wa for x in la[:dim]]
+            Pb = [x / wb for x in fb[:dim]]
+            newc = []
+            for pt in sb['cps']:
+                w = pt[-1] if sb['rational'] else Fr(1)
+                xyz = [pt[i] / w + (Pa[i] - Pb[i]) for i in range(dim)]
+                if sb['rational']:
+                    w2 = w * wa / wb
+                    newc.append([x * w2 for x in xyz] + [w2])
+                else:
+                    newc.append(xyz)
+            sb = dict(sb, cps=newc, intcps=False)
+            if not sb['rational'] and sa['rational'] and wa != 1:
+                continue      # a polynomial second curve gets weight 1 at the junction: the first must end with weight 1
+            a, b = O.make_impl(sa), O.make_impl(sb)
+            pa, pb = O.snapshot(a), O.snapshot(b)
+            case = dict(op='append', obj=O.spec_json(pa), other=O.spec_json(pb))
+            try:
+                ret = a.append(b)
+                post = O.snapshot(a)
+                if ret is not a:
+                    V.failure(dict(case, what='append did not return the curve itself'))
+                if O.snaps_differ(O.snapshot(b), pb, rel=0):
+                    V.failure(dict(case, what='append modified the curve passed to it'))
+            except Exception as e:  # noqa
+                V.failure(dict(case, what='L2: append raised %s' % type(e).__name__))
+                continue
+            napp += 1
+            nontriv.add(C.case_hash(case))
+            s1, e1 = O.domain(pa['bases'][0])
+            s2, e2 = O.domain(pb['bases'][0])
+            ts_a = [s1 + (e1 - s1) * Fr(rng.randint(0, 32), 32) for _ in range(5)] + [s1, e1]
+            ts_b = [s2 + (e2 - s2) * Fr(rng.randint(0, 32), 32) for _ in range(5)] + [s2, e2]
+            ent = dict(case=case, post=post, l1=len(lines), dom=(s1, e1 + (e2 - s2)))
+            lines.append('obj_append %s %s %s' % (C.qs(tol), O.obj_tokens(pa), O.obj_tokens(pb)))
+            ent['ev'] = (len(lines), len(lines) + 1, len(lines) + 2, len(lines) + 3)
+            lines.append(O.eval_cmd(tol, pa, [(t,) for t in ts_a]))
+            lines.append(O.eval_cmd(tol, post, [(C.fr(float(t)),) for t in ts_a]))
+            lines.append(O.eval_cmd(tol, pb, [(t,) for t in ts_b]))
+            lines.append(O.eval_cmd(tol, post, [(C.fr(float(t - s2 + e1)),) for t in ts_b]))
+            app_cases.append(ent)
+        aouts = C.run_model(lines)
+        for ent in app_cases:
+            case = ent['case']
+            tk = aouts[ent['l1']]
+            if tk.word() == 'Err':
+                if corr_bad is None:
+                    corr_bad = dict(case, what='L1: model append raises %s, implementation succeeds' % tk.word())
+            else:
+                dfr = O.snaps_differ(ent['post'], O.read_obj(tk), rel=1e-7)
+                if dfr:
+                    V.failure(dict(case, what='L1: append result differs from the transcribed model: ' + dfr, l1=True))
+            pb_ = ent['post']['bases'][0]
+            dom = O.domain(pb_)
+            if abs(float(dom[0] - ent['dom'][0])) > 1e-9 or abs(float(dom[1] - ent['dom'][1])) > 1e-9 * max(1.0, abs(float(dom[1]))):
+                V.failure(dict(case, what='L2: domain after append is %s, expected %s' % ([float(x) for x in dom], [float(x) for x in ent['dom']])))
+            i0, i1, i2, i3 = ent['ev']
+
+            def pad(vals, n):
+                return [(e_, (list(v) + [Fr(0)] * (n - len(v))) if v is not None else None) for e_, v in vals]
+            va, vpa = O.parse_eval(aouts[i0]), O.parse_eval(aouts[i1])
+            vb, vpb = O.parse_eval(aouts[i2]), O.parse_eval(aouts[i3])
+            nd = max([len(v) for _, v in vpa if v is not None] or [0])
+            df = O.maps_differ(pad(va, nd), vpa, rel=1e-7)
+            if df:
+                V.failure(dict(case, what='L2: the appended curve differs from the first curve on its interval: ' + df[1]))
+            df = O.maps_differ(pad(vb, nd), vpb, rel=1e-7)
+            if df:
+                V.failure(dict(case, what='L2: the appended curve differs from the second curve (shifted) on its interval: ' + df[1]))
     rc = V.finish(l0, corr_bad if not V.fail else None)
     C.write_evidence(PID, tier, seed, l0, {
-        'evaluations': evals + nsub, 'distinct_nontrivial': len(nontriv),
+        'evaluations': evals + nsub + napp, 'distinct_nontrivial': len(nontriv),
         'rule': 'random objects (pardim 1-3, open/non-open/periodic directions); split at 1-3 increasing points (knots of any multiplicity, between knots, '
                 'domain ends) given as scalar or list; pieces vs model, tiling, restriction at random parameters, curve split-then-append, subdivide; '
                 'non-trivial = distinct (object, direction, points)',
